@@ -17,11 +17,17 @@ CLAIMED = {
  "C01": ("proof", "Theorems C01_* (for every value type, node table, configuration, schedule): every scheduler run computes the denotation of the node table; all schedules agree; the denotation equals sequential plain evaluation in any dependency order; scheduling parameters do not occur in the denotation. The build half (node table = what the describing function denotes) is tied by K-value: DAG value vs plain-Python evaluation of the same generated describing function vs denotation of the table the implementation built, under random configurations (dict/JSON/YAML), both flavours, controlled schedules.", "6 C01"),
  "C07": ("proof", "Theorems C07_*: cprio = own + sum over any duplicate-free enumeration of the reachable set; independence from container iteration order (hash seed); unique run with max_concurrency=1 and injective priorities; machine-checked refutation of the pinned commit's algorithm (F1, fixed). K-graph: implementation table vs model on random non-tree DAGs, executor sub-graph tables, sub-processes under several PYTHONHASHSEEDs (tables and execution order).", "6 C07"),
  "C10": ("proof", "Theorems C10_*: the flag test's outcome is the truthiness of the denotation of the referenced value with its key path; falsy => result None, never started; truthy => started exactly once; dependents run. Nested-DAG propagation is tied by K-value (flag forms x values, nested depth 3) against the plain reference; exception F13 is a known finding.", "6 C10"),
+ "C11": ("proof", "Theorems C11_* over History.v (set-level model of what an instance keeps between operations): for every sequence of call / setup(selection) / executor operations a setup node executed by a successful operation is never executed again; setup(target) executes only setup ancestors of the targets; copies are independent. K-hist: random histories on real instances incl. deepcopy, entry counters per (instance, setup node), executed sets per operation vs the model.", "6 C11"),
  "C12": ("proof", "Theorems C12_*: exact characterisation of the selected node set by reachability in the full graph (under the property's hypothesis on excluded nodes), ValueError iff conditions, subset/NoDup. K-graph: executor graphs for random (R, X, T) through id / tag / reference aliases incl. error paths, executed node sets.", "6 C12"),
  "C13": ("proof", "Theorems C13_*: flag off => no debug node in executor / call / setup graphs; flag on => call runs all, pulled debug nodes have all inputs in the executed graph; values of non-debug nodes identical in both settings (SelectSpec.debug_does_not_change_values). K-graph under both settings.", "6 C13"),
+ "C15": ("proof", "Theorem C15_den_precompute: replacing nodes by their already-computed values (the only state an instance keeps: setup results) changes no value and no failure, for every table / configuration; with C11 (what is kept) this is 'the k-th call equals the call on a fresh instance'. K-hist: histories with different argument tuples, omitted defaults, executors, failing calls and failing executor runs followed by a re-run, then one more call compared with a freshly built DAG.", "6 C15"),
+ "C18": ("proof", "Theorems C18_*: a restart never executes a node whose result is in the file; same selection => nothing runs; cache_deps_of=D => file = results minus D, restart executes exactly D. Value equality via C15_den_precompute. K-hist: caching runs / restarts incl. cache_deps_of, executed sets and unpickled key sets. pickle fidelity trusted.", "6 C18"),
  "C14": ("proof", "Theorems C14_*: the run ends with the first inspected failure, nothing accepted afterwards, no transitive dependent of a failed/unfinished node ever started, removals always target graph roots (no internal error). Exception wrapping (node id, location, cause) checked by the monitor on every failing run.", "6 C14"),
 }
 NOTES = {
+ "C11": "trusted: Coq kernel + vm_compute; History.v / Select.v models; harness; setup node functions pure. Axioms: none.",
+ "C15": "trusted: as C01 plus History.v; mutation of shared constants by impure node functions is outside.",
+ "C18": "trusted: as C11; pickle round-trips values faithfully.",
  "C01": "trusted: Coq kernel + vm_compute; hand-written models (Sched.v, Dataflow.v, Terms.v); harness (generated describing functions, plain-Python reference, canonicalisation); node table read from the implementation (layering); pure node functions. Axioms: none.",
  "C07": "trusted: Coq kernel + vm_compute; Priority.v / Graph.v models; networkx descendants as modelled by the fuelled closure (proved equal to reachability); harness. Axioms: none.",
  "C10": "trusted: as C01. Python truthiness / __getitem__ modelled abstractly (truthy, index).",
@@ -31,6 +37,9 @@ NOTES = {
 TECH = "Coq proof over an executable scheduler LTS + trace-acceptance correspondence (vm_compute in coqc) against controlled runs of the real code"
 
 TECHS = {
+ "C11": "Coq proof over a set-level history model composed with the scheduler theorems + history correspondence on real DAG instances",
+ "C15": "Coq proof (pre-computed values do not change the denotation) + history correspondence against freshly built DAGs",
+ "C18": "Coq proof over the history model (cache keys, restart set) + history correspondence with real cache files",
  "C01": "Coq proof (denotation = every schedule = sequential evaluation) + differential correspondence of generated describing functions (tawazi vs plain Python vs model evaluated in coqc)",
  "C07": "Coq proof over a model of assign_compound_priority + table correspondence under several hash seeds",
  "C10": "Coq proof over the valued scheduler LTS + differential correspondence over all flag forms",
